@@ -135,7 +135,7 @@ std::string hostile(rt::Rng &rng, std::string &cls) {
     auto lang = [&](bool name) { auto &e = LocaleInfo::languageInfo[rng.below(LocaleInfo::languagesCount)]; return std::string(name ? e.value : e.code); };
     auto ctry = [&](bool name) { auto &e = LocaleInfo::countryInfo[rng.below(LocaleInfo::countiesCount)]; return std::string(name ? e.value : e.code); };
     static const size_t lens[] = {60, 62, 63, 64, 65, 66, 70, 100, 1000, 100000};
-    switch (rng.below(15)) {
+    switch (rng.below(16)) {
         case 0: { cls = "long-language-part"; ++C.longParts; return std::string(lens[rng.below(10)], 'a' + (char) rng.below(26)) + "_" + ctry(false); }
         case 1: { cls = "long-country-part"; ++C.longParts; return lang(false) + "_" + std::string(lens[rng.below(10)], 'A' + (char) rng.below(26)) + (rng.chance(500) ? ".UTF-8" : ""); }
         case 2: { cls = "dot-before-underscore"; ++C.dotFirst; return lang(false) + "." + std::string(rng.below(6), 'x') + "_" + ctry(false); }
@@ -149,6 +149,16 @@ std::string hostile(rt::Rng &rng, std::string &cls) {
         case 10: { cls = "valid-with-odd-charset"; return lang(rng.chance(500)) + "_" + ctry(rng.chance(500)) + "." + std::string(rng.below(200), '8') + (rng.chance(300) ? "._." : ""); }
         case 11: { cls = "long-both-parts"; ++C.longParts; return std::string(lens[rng.below(8)], 'e') + "_" + std::string(lens[rng.below(8)], 'G') + ".UTF-8"; }
         case 12: { cls = "exactly-63-64"; ++C.longParts; size_t n = 61 + rng.below(5); return std::string(n, 'z') + "_" + std::string(61 + rng.below(5), 'Z'); }
+        case 14: {
+            // a known form followed by padding of exactly 2^8*k or 2^16*k bytes: a length kept in a narrow integer wraps
+            // back to the length of the known form
+            cls = "length-wraps";
+            ++C.longParts;
+            size_t pad = (rng.chance(500) ? 65536 : 256) * (size_t) rng.range(1, 3);
+            bool name = rng.chance(500);
+            if (rng.chance(500)) return lang(name) + std::string(pad, 'x') + "_" + ctry(rng.chance(500)) + (rng.chance(300) ? ".UTF-8" : "");
+            return lang(name) + "_" + ctry(rng.chance(500)) + std::string(pad, 'X') + (rng.chance(300) ? ".UTF-8" : "");
+        }
         case 13: {
             // the library echoes unknown locales to stderr: printf conversions in the input must stay text
             cls = "printf-conversions";
